@@ -183,6 +183,12 @@ def make_unit(iset, cube_name, cube_pred, memarch='PMSA', nregions=1, props=('C1
                 ob = eng.oblige('safe.host', '%s: step raises %s' % (tag, outcome), False,
                                 detail=str(exc.attrs.get('args')))
                 ob.props = ['C18']
+                if eng.foreign_writes or eng.foreign_reads:
+                    # (state kept outside the instance often shows first as a host error of the model - the engine does not let a
+                    # write to a foreign object take effect -: the ownership obligations are stated on this path as well)
+                    ob = eng.oblige('frame.own', '%s: no access to mutable state outside the processor instance' % tag, False,
+                                    detail='; '.join(list(eng.foreign_writes[:3]) + sorted(eng.foreign_reads)[:3]))
+                    ob.props = ['C20']
                 return
         ok18 = eng.oblige('safe.host', '%s: step completes or takes an architectural exception' % tag, True)
         ok18.props = ['C18']
